@@ -604,3 +604,58 @@ def _flush_contract(n):
 
 for _n in (0, 1, 2):
     _flush_contract(_n)
+
+
+# ------------------------------------------------------------------ 5b. the flush when the backlog exceeds the window
+def _overflow_contract(n):
+    @contract("bromelia.setup.DiameterAssociation.send_message_from_queue", prop="C05", name="flush-overflow-%d" % n,
+              also=("C07",))
+    class _FlushOverflow:
+        """a backlog larger than the 256 KiB flush window: some NON-EMPTY prefix of the queue is serialised, in
+        order, into the one stream handed over (so the head of the queue always makes progress: a message
+        larger than the window goes out alone instead of being put back for ever), and exactly the other
+        messages are still queued, once each, in their submission order -- no message is both written and
+        kept, none disappears, none is moved behind a later submission"""
+        args = {"self": _flush_assoc([msg_shape(cls=(B.DiameterAnswer, B.DiameterRequest)[i % 2])
+                                       for i in range(n)])}
+        snapshot_spec = snap_flush
+        bounded = "send queue of exactly %d message(s) of any size whose total exceeds the window" % n
+
+        def requires(self):
+            q = self._send_messages.st["items"]
+            return _lemmas(q) and not fits(q)
+
+        def ensures_a_nonempty_prefix_is_written_and_the_rest_stays_queued_in_order(self):
+            q0, log = ghost_get("fq0"), event_log()
+            left = self._send_messages.st["items"]
+            if len(log) != 1 or log[0][0] != "wire":
+                return False
+            ok = False
+            for k in range(1, len(q0) + 1):
+                expect = b""
+                for m in q0[:k]:
+                    expect = expect + wire_bytes(m)
+                same_rest = len(left) == len(q0) - k
+                if same_rest:
+                    for i in range(len(left)):
+                        same_rest = same_rest and left[i] is q0[k + i]
+                ok = ok or (same_rest and log[0][2] == expect)
+            return ok
+
+        def ensures_lock_free(self):
+            return self.lock.st["held"] == False
+
+        def exceptional(exc):
+            return False
+
+        # (no negative control here: refuting one needs a solver MODEL of a > 256 KiB backlog over symbolic AVP
+        # sequences, which takes cvc5 minutes; non-vacuity is the `cover` obligation, and the reproduction
+        # findings/c05_flush_overflow_demo.py exercises the same clause on the real code)
+    return _FlushOverflow
+
+
+import os as _os                                                         # noqa: E402
+# three queued messages (a fitting one, one that does not fit, one submitted after it) is the smallest
+# backlog on which "put back behind later submissions" shows; it takes minutes, so thorough tier only
+for _n in ((1, 2, 3) if _os.environ.get("VERIF_TIER") == "thorough" else (1, 2)):
+    _overflow_contract(_n)
